@@ -1401,6 +1401,21 @@ type fxStages struct {
 func (p fxStages) DepthEncode() int { return p.DecodeParameters.Depth() }
 func (p fxStages) DepthDecode() int { return p.DecodeParameters.Depth() }
 
+// SCALEU64 control: the scale is squeezed into 64 bits
+func ckksScaleBy(r *ring.Ring, ct *rlwe.Ciphertext, s rlwe.Scale) {
+	r.MulScalar(ct.Value[0], s.Uint64(), ct.Value[0])
+	ct.Scale = ct.Scale.Mul(s)
+}
+
+// LAYOUTSPLIT control: the scalar is split at the current level
+type fxQP struct{ RingQ, RingP *ring.Ring }
+
+func (r fxQP) Mul(p ring.Poly, scalar []uint64, pOut ring.Poly) {
+	scalarQ, scalarP := scalar[:r.RingQ.Level()+1], scalar[r.RingQ.Level()+1:]
+	r.RingQ.MulRNSScalarMontgomery(p, scalarQ, pOut)
+	r.RingP.MulRNSScalarMontgomery(p, scalarP, pOut)
+}
+
 `
 
 // control runs scan over the fixture and demands a violation whose key contains each of the wanted substrings.
